@@ -376,6 +376,35 @@ fn boundary_table() -> Vec<String> {
             v.push(format!("{m}e+{e}"));
         }
     }
+    // decimal strings at and next to the midpoint of two adjacent doubles: the rounding is decided
+    // far beyond the 17th significant digit (a parser that gives up early is 1 ulp off)
+    for t in [
+        "9007199254740993",
+        "9007199254740993.0000000000001",
+        "9007199254740992.9999999999999",
+        "9007199254740995",
+        "9007199254740994.99999999999999999999",
+        "18446744073709553665",
+        "18446744073709553664",
+        "18446744073709553663",
+        "1.00000000000000011102230246251565404236316680908203125",
+        "1.000000000000000111022302462515654042363166809082031250000001",
+        "1.00000000000000011102230246251565404236316680908203124999999",
+        "100000000000000000000000",
+        "100000000000000000000001",
+        "99999999999999999999999",
+        "2.4703282292062328e-324",
+        "2.4703282292062327e-324",
+        "2.47032822920623272088284396434110686182529901307162382212792841250337753635104375932649918180817996189898282347722858865463328355177969898199387398005390939063150356595155702263922908583924491051844359318028499365361525003193704576782492193656236698636584807570015857692699037063119282795585513329278343384093519780155312465972635795746227664652728272200563740064854999770965994704540208281662262378573934507363390079677619305775067401763246736009689513405355374585166611342237666786041621596804619144672918403005300575308490487653917113865916462395249126236538818796362393732804238910186723484976682350898633885879256283027559956575244555072551893136908362547791869486679949683240497058210285131854513962138377228261454376934125320985913276672363281251e-324",
+        "1.7976931348623158e308",
+        "1.7976931348623159e308",
+        "0.1000000000000000055511151231257827021181583404541015625",
+        "0.10000000000000000555111512312578270211815834045410156250000001",
+        "8.5e-324",
+        "123456789012345678901234567890123456789012345678901234567890.5",
+    ] {
+        v.push(t.to_string());
+    }
     // zero-padded and over-long exponent parts
     for m in ["1", "2.5", ".5", "25"] {
         for e in ["e00001", "e+0001", "E-0003", "e+00023", "e000000000000000001", "e+1000", "E-01000", "e0000", "e00"] {
